@@ -69,19 +69,31 @@ class TranslationRaised(Exception):
         self.exc = exc
 
 
-def parse_query(text):
+class _FoldNegative(ast.NodeTransformer):
+    """-5 written in source text parses as UnaryOp(USub, Constant(5)); a captured python variable holding -5 reaches the
+    backend as Constant(-5) (func_adl.util_ast.as_literal).  Programs tagged 'fold_neg' are translated in the second form."""
+    def visit_UnaryOp(self, node):
+        self.generic_visit(node)
+        if isinstance(node.op, ast.USub) and isinstance(node.operand, ast.Constant) and type(node.operand.value) in (int, float):
+            return ast.copy_location(ast.Constant(value=-node.operand.value), node)
+        return node
+
+
+def parse_query(text, fold_neg=False):
     a = ast.parse(text.strip(), mode="eval").body
+    if fold_neg:
+        a = ast.fix_missing_locations(_FoldNegative().visit(a))
     return a
 
 
-def translate(query, backend="atlas", fresh=True, exe=None, keep_dir=None, quiet=True):
+def translate(query, backend="atlas", fresh=True, exe=None, keep_dir=None, quiet=True, fold_neg=False):
     """query: source text or ast.AST.  Returns Package or raises TranslationRaised.
 
     fresh=True wipes the global registries and creates a new executor (one 'fresh
     interpreter' per program, as the test-suite's autouse fixture does)."""
     if quiet:
         logging.disable(logging.CRITICAL)
-    a = parse_query(query) if isinstance(query, str) else query
+    a = parse_query(query, fold_neg) if isinstance(query, str) else query
     if fresh:
         wipe_registries()
     if exe is None:
